@@ -1,0 +1,32 @@
+//go:build verif
+
+/*
+ * Copyright 2022 CloudWeGo Authors
+ *
+ * Licensed under the Apache License, Version 2.0 (the "License");
+ * you may not use this file except in compliance with the License.
+ * You may obtain a copy of the License at
+ *
+ *     http://www.apache.org/licenses/LICENSE-2.0
+ *
+ * Unless required by applicable law or agreed to in writing, software
+ * distributed under the License is distributed on an "AS IS" BASIS,
+ * WITHOUT WARRANTIES OR CONDITIONS OF ANY KIND, either express or implied.
+ * See the License for the specific language governing permissions and
+ * limitations under the License.
+ */
+
+// Package verifhook provides scheduling yield points for deterministic
+// simulation. Without the verif build tag every call is an empty function.
+package verifhook
+
+// OnYield, when set by a simulation harness, is called at every yield point.
+// It may block the calling goroutine until the harness's scheduler releases it.
+var OnYield func(site string, obj interface{})
+
+// Yield hands control to the simulation scheduler, if one is installed.
+func Yield(site string, obj interface{}) {
+	if f := OnYield; f != nil {
+		f(site, obj)
+	}
+}
